@@ -47,7 +47,7 @@ import (
 // ---- case description (JSON-able; independent of run-time state)
 
 type rwOp struct {
-	K    string `json:"k"`              // emit | finish | ack | stall | unstall | advance | connect | break | idle
+	K    string `json:"k"`              // emit | finish | ack | stall | unstall | advance | connect | break | idle | move
 	Side string `json:"side,omitempty"` // "S" | "T" for connect/break/stall
 	I    int    `json:"i,omitempty"`    // shard index (0-based) on that side
 	// emit: tasks (workflow selector per task: target index it hashes to, and variant); none => watermark-only
@@ -315,6 +315,7 @@ func (s *rwIntraSvc) StreamWorkflowReplicationMessages(stream adminservice.Admin
 }
 
 type rwWorld struct {
+	tgtAt        map[int]int // target index -> instance its stream lands on now (overrides c.TgtNode after a "move")
 	nodes        []*rwNode
 	gates        *c08Gates
 	windowTarget int // target index whose dying sender is parked at "sender.closed" (-1: none)
@@ -405,7 +406,7 @@ func newRWWorld(c rwCase) *rwWorld {
 	var lp logging.LoggerProvider = vfHookProvider{}
 	scc := config.ShardCountConfig{Mode: config.ShardCountRouting, LocalShardCount: int32(c.NS), RemoteShardCount: int32(c.NT)}
 	ctx, cancel := context.WithCancel(context.Background())
-	w := &rwWorld{windowTarget: -1, c: c, lifetime: ctx, cancel: cancel, pool: rwPool(c.NT), byMarker: map[string]*rwTaskRec{}, classes: map[string]int{}}
+	w := &rwWorld{tgtAt: map[int]int{}, windowTarget: -1, c: c, lifetime: ctx, cancel: cancel, pool: rwPool(c.NT), byMarker: map[string]*rwTaskRec{}, classes: map[string]int{}}
 	if c.Nodes <= 1 {
 		sm := NewShardManager(nil, scc, encryption.TLSConfig{}, lp).(*shardManagerImpl)
 		_ = sm.Start(ctx)
@@ -473,6 +474,11 @@ func (w *rwWorld) smFor(side string, idx int) *shardManagerImpl {
 	k := 0
 	if idx < len(at) {
 		k = ((at[idx] % len(w.nodes)) + len(w.nodes)) % len(w.nodes)
+	}
+	if side == "T" {
+		if o, ok := w.tgtAt[idx]; ok {
+			k = ((o % len(w.nodes)) + len(w.nodes)) % len(w.nodes)
+		}
 	}
 	return w.nodes[k].sm
 }
@@ -1018,6 +1024,12 @@ func (w *rwWorld) endAll() (leftovers []string) {
 		}
 	}
 	w.syncNodes()
+	if len(w.nodes) > 0 {
+		// an intra-proxy receiver that was waiting (with back-off, up to 1 s) to hand a message to a target stream that
+		// has just ended notices its shutdown at its next wake-up
+		time.Sleep(3 * time.Second)
+		vfQuiesce()
+	}
 	for _, sm := range w.allSMs() {
 		if ls := sm.GetLocalShards(); len(ls) != 0 {
 			leftovers = append(leftovers, fmt.Sprintf("shards still registered: %v", ls))
@@ -1033,7 +1045,13 @@ func (w *rwWorld) endAll() (leftovers []string) {
 		na := len(sm.activeReceivers)
 		sm.activeReceiversMu.RUnlock()
 		if nc != 0 || na != 0 {
-			leftovers = append(leftovers, fmt.Sprintf("receiver bookkeeping left: %d cancel funcs, %d active receivers", nc, na))
+			var who []string
+			sm.activeReceiversMu.RLock()
+			for k, r := range sm.activeReceivers {
+				who = append(who, fmt.Sprintf("%s on %s: %T (source %s, target %s)", ClusterShardIDtoString(k), sm.GetNodeName(), r, ClusterShardIDtoString(r.GetSourceShardID()), ClusterShardIDtoString(r.GetTargetShardID())))
+			}
+			sm.activeReceiversMu.RUnlock()
+			leftovers = append(leftovers, fmt.Sprintf("receiver bookkeeping left: %d cancel funcs, %d active receivers %v", nc, na, who))
 		}
 	}
 	for _, n := range w.nodes {
